@@ -108,7 +108,11 @@ def main():
 
 
 def finish(d, res):
-    json.dump(res, open(os.path.join(d, "result.json"), "w"), indent=1)
+    # when run from a snapshot of /verif (vp run), the result goes back to the live tree
+    root = os.environ.get("MUTANT_RESULT_ROOT")
+    out = os.path.join(root, "seeded", os.path.basename(d)) if root else d
+    os.makedirs(out, exist_ok=True)
+    json.dump(res, open(os.path.join(out, "result.json"), "w"), indent=1)
     print(json.dumps({k: res.get(k) for k in ("seeded", "property", "patch_applies", "builds", "suite_passes_with_patch",
                                               "demo_fails_with_patch", "demo_passes_without_patch", "caught_by", "error")}, indent=1))
     return 0
